@@ -450,6 +450,16 @@ func (x *run) stepWipe(rs *repState, s *sim.Step) error {
 						break
 					}
 				}
+			} else {
+				// half of it is gone (say the identities, while bugs they authored remain): what a
+				// wipe makes of such a repository is not stated anywhere, and the wipe command does
+				// fail on it (§9.3). The replica leaves the run here.
+				x.probe("remove_all_failed_half_way_replica_retired")
+				_ = r.CloseClean()
+				rs.alive = false
+				rs.staged = map[string]bool{}
+				rs.wiped = true
+				return nil
 			}
 		}
 	}
